@@ -19,7 +19,15 @@ Nothing in this module imports pyModelChecking at import time (the worker does, 
 """
 import sys, os, json, ast, itertools, subprocess, re
 
-NAMES = 'abcde'            # variable number <-> name; 'e' (4) is never put into an ordering by C17
+# variable number <-> name; 'e_x' (4) is never put into an ordering by C17.  Names of more than one character on purpose:
+# CPython shares one object per one-character string, longer names arrive from JSON / str.format as EQUAL BUT DISTINCT objects
+# (a comparison by identity instead of equality inside the library is then visible)
+NAMES = ['a', 'b1', 'cc', 'd', 'e_x']
+
+
+def rn(text):
+    """the literal corpora below are written with the letters a..e; rename them to NAMES"""
+    return re.sub(r'\b([a-e])\b', lambda m: NAMES['abcde'.index(m.group(1))], text)
 NV = 4                     # truth tables range over variables 0..3 (16 assignments)
 NASSIGN = 1 << NV
 HERE = os.path.dirname(os.path.abspath(__file__))
@@ -91,7 +99,7 @@ def ast_struct(node):
             return ('not', ast_struct(node.operand), True)
         return ('bad',)
     if isinstance(node, ast.Name):
-        if node.id in NAMES and len(node.id) == 1:
+        if node.id in NAMES:
             return ('v', NAMES.index(node.id))
         return ('bad',)          # the harness never uses other names
     if isinstance(node, ast.Constant):
@@ -474,7 +482,7 @@ def run_model(histories, timeout=900):
     return res
 
 
-TOKEN_RE = re.compile(r'\s*([a-e]|[~&|()01])')
+TOKEN_RE = re.compile(r'\s*([A-Za-z_][A-Za-z_0-9]*|[~&|()01])')
 
 
 def tokens_of(s):
@@ -710,6 +718,8 @@ STATEMENT_TEXTS = ['a = b', 'a; b', 'return a', 'x = lambda a: a', 'lambda a: a;
 BAD_TEXTS_EXPR_ONLY = ['  a', ' a & b', '\ta']      # unexpected indent as a text of its own, fine as a lambda body
 LEXICAL_VARIANTS = ['a\n', 'a # c', '(a\n& b)', 'a &\\\n b', '((a)) | (b)', 'a&b|c', '~ a', 'not(a)', 'a and(b)or c',
                     '0b1 & a', '0x0 | a', 'a  |\tb', '(\na\n)']
+BAD_FRAGMENTS, BAD_TEXTS, STATEMENT_TEXTS, BAD_TEXTS_EXPR_ONLY, LEXICAL_VARIANTS = (
+    [rn(t) for t in xs] for xs in (BAD_FRAGMENTS, BAD_TEXTS, STATEMENT_TEXTS, BAD_TEXTS_EXPR_ONLY, LEXICAL_VARIANTS))
 
 
 def rand_expr(rng, depth, vs, p_kw=0.3, p_const=0.08, p_bad=0.0):
